@@ -77,9 +77,9 @@ def run(ctx):
         return
     if not ctx.go_build():
         return
-    ctx.diff_stream("auth", ctx.n(2500, 60000), oracle=oracle)
-    ctx.diff_stream("parse", ctx.n(2500, 60000), oracle=oracle)
-    ctx.diff_stream("sds", ctx.n(500, 8000), oracle=oracle)
+    ctx.diff_stream("auth", ctx.n(4000, 60000), oracle=oracle)
+    ctx.diff_stream("parse", ctx.n(3000, 60000), oracle=oracle)
+    ctx.diff_stream("sds", ctx.n(800, 8000), oracle=oracle)
     # second line: the property oracle on every generated and corpus case, independent of the model
     for stream in STREAMS:
         files = []
